@@ -11,7 +11,7 @@
    Variants: [Repaired] = /repo HEAD (both C20 fixes are committed); [Defective] = the code before them; [LoadAndDel] =
    seeded change C20_n2.  Theorems are proved for Repaired; the `_refuted` theorems show the same statements false for
    the other two. *)
-From OV Require Import Common.Base C20.Model C20.Proofs C20.Proofs2 C20.Proofs3.
+From OV Require Import Common.Base C20.Model C20.Proofs C20.Proofs2 C20.Proofs3 C20.Proofs4.
 Open Scope Z_scope.
 
 (* ---------------------------------------------------------------- label tuples and the hash *)
@@ -558,3 +558,76 @@ Print Assumptions C20_default_cap.
 Theorem C20_eff_cap_spec : forall raw, eff_cap raw = (if raw =? 0 then 10000 else raw) /\ (raw <> 0 -> eff_cap raw = raw).
 Proof. intros raw. unfold eff_cap, default_cap. split; [reflexivity|]. intros H. destruct (Z.eqb_spec raw 0); [contradiction | reflexivity]. Qed.
 Print Assumptions C20_eff_cap_spec.
+
+(* ---------------------------------------------------------------- ghost-free aggregate over what the snapshot reports *)
+(* [snap_sum] = sum of the series values AppendSnapshot returns; drops/unknown/stales = the three internal metric samples it
+   returns; [retired_all] = final values of the series removed by UnregisterSeries (readable only through handles still held).
+   No ghost state in the statement. *)
+Theorem C20_conc_visible_conservation : forall c progs sched,
+  c_kind c <> KGauge -> c_variant c = Repaired -> wf_progs c progs = true ->
+  let x := run_sched c (sys0 progs) sched in
+  quiescent x = true ->
+  (snap_sum (c_kind c) (sh x) + drops (sh x) + unknown (sh x) + stales (sh x) + retired_all (c_kind c) (sh x)) mod M64
+    = progs_weight (c_kind c) progs mod M64.
+Proof. exact conc_visible_conservation. Qed.
+Print Assumptions C20_conc_visible_conservation.
+
+Theorem C20_conc_visible_conservation_refuted :
+  (let c := cfg_of Defective 1 in let x := run_sched c (sys0 w1_progs) w1_sched in
+   wf_progs c w1_progs = true /\ quiescent x = true /\
+   (snap_sum KCounter (sh x) + drops (sh x) + unknown (sh x) + stales (sh x) + retired_all KCounter (sh x)) mod M64 = 0 /\
+   progs_weight KCounter w1_progs mod M64 = 5) /\
+  (let c := cfg_of LoadAndDel 2 in let x := run_sched c (sys0 w4_progs) w4_sched in
+   wf_progs c w4_progs = true /\ quiescent x = true /\
+   (snap_sum KCounter (sh x) + drops (sh x) + unknown (sh x) + stales (sh x) + retired_all KCounter (sh x)) mod M64 = 0 /\
+   progs_weight KCounter w4_progs mod M64 = 1).
+Proof. vm_compute. repeat split; reflexivity. Qed.
+Print Assumptions C20_conc_visible_conservation_refuted.
+
+(* ---------------------------------------------------------------- gauges: Add/Sub conservation per tuple *)
+(* [vemitted_to c progs t] = sum of the deltas the programs direct at t (static); [vattributed x t] = sum of the deltas directed
+   at t that did not land in a series (client-side tally, a ghost); [nonlanded x] = number of such emissions.  EXACT equalities
+   in Z (a gauge does not wrap).  Set is excluded ([add_only]): it overwrites, see C20_gauge_last_writer. *)
+Theorem C20_gauge_per_tuple_conservation : forall c progs sched,
+  c_kind c = KGauge -> c_variant c = Repaired -> wf_progs c progs = true -> add_only progs ->
+  let x := run_sched c (sys0 progs) sched in
+  quiescent x = true ->
+  (forall t, shown KGauge (sh x) t + retired_of KGauge (sh x) t + vattributed x t = vemitted_to c progs t) /\
+  (drops (sh x) + unknown (sh x) + stales (sh x)) mod M64 = nonlanded x mod M64 /\
+  noop (sh x) = 0.
+Proof. exact gauge_per_tuple. Qed.
+Print Assumptions C20_gauge_per_tuple_conservation.
+
+(* ghost-free: the three drop metrics read 0 (fewer than 2^64 emissions) => every Add landed; per tuple, snapshot value +
+   unregistered series = sum of the deltas *)
+Theorem C20_gauge_series_exact : forall c progs sched,
+  c_kind c = KGauge -> c_variant c = Repaired -> wf_progs c progs = true -> add_only progs ->
+  progs_weight KGauge progs < M64 ->
+  let x := run_sched c (sys0 progs) sched in
+  quiescent x = true -> drops (sh x) = 0 -> unknown (sh x) = 0 -> stales (sh x) = 0 ->
+  forall t, shown KGauge (sh x) t + retired_of KGauge (sh x) t = vemitted_to c progs t.
+Proof. exact gauge_series_exact. Qed.
+Print Assumptions C20_gauge_series_exact.
+
+Definition gcfg (v : variant) (cap : Z) : cfg := {| c_kind := KGauge; c_cap := cap; c_nlabels := 1; c_buckets := []; c_variant := v |}.
+Definition w6_progs : list (list op) :=
+  [[OResolve tA; OEmitH 0 EAdd 3; OResolve tB; OEmitH 1 EAdd 4; OEmitT tC EAdd 5; OUnreg tA; OEmitH 0 EAdd (-6); OEmitT tB EAdd 9]].
+Lemma add_only_w6 : add_only w6_progs.
+Proof. repeat constructor. Qed.
+Print Assumptions add_only_w6.
+Example C20_gauge_per_tuple_nonvacuous :
+  let c := gcfg Repaired 1 in let x := run_sched c (sys0 w6_progs) (repeat 0%nat 60) in
+  wf_progs c w6_progs = true /\ quiescent x = true /\
+  (shown KGauge (sh x) tA, retired_of KGauge (sh x) tA, vattributed x tA, vemitted_to c w6_progs tA) = (0, 3, -6, -3) /\
+  (vattributed x tB, vemitted_to c w6_progs tB, vattributed x tC) = (13, 13, 5) /\
+  (drops (sh x), unknown (sh x), stales (sh x), nonlanded x) = (1, 2, 1, 4).
+Proof. vm_compute. repeat split; reflexivity. Qed.
+Print Assumptions C20_gauge_per_tuple_nonvacuous.
+
+(* the pre-36aca6a machine violates the gauge statement too (w1 with a gauge: the Add(5) through the orphaned handle) *)
+Theorem C20_gauge_series_exact_refuted :
+  let c := gcfg Defective 1 in let x := run_sched c (sys0 w1_progs) w1_sched in
+  wf_progs c w1_progs = true /\ quiescent x = true /\ drops (sh x) = 0 /\ unknown (sh x) = 0 /\ stales (sh x) = 0 /\
+  shown KGauge (sh x) tA + retired_of KGauge (sh x) tA = 0 /\ vemitted_to c w1_progs tA = 5.
+Proof. vm_compute. repeat split; reflexivity. Qed.
+Print Assumptions C20_gauge_series_exact_refuted.
